@@ -136,7 +136,7 @@ class XtcePacketDefinition(common.AttrComparable):
         filepath : Union[str, Path]
             Location to write this packet definition
         """
-        self.to_xml_tree().write(filepath.absolute(), pretty_print=True, xml_declaration=True, encoding="utf-8")
+        self.to_xml_tree().write(Path(filepath).absolute(), pretty_print=True, xml_declaration=True, encoding="utf-8")
 
     def to_xml_tree(self) -> ElementTree.ElementTree:
         """Initializes and returns an ElementTree object based on parameter type, parameter, and container information
